@@ -51,6 +51,17 @@ pub fn judge_pkg(pkg: &Package) -> Result<(u64, u32), (String, String)> {
 }
 
 fn observe(rep: &Report, local: &mut BTreeMap<String, u64>, source: &str, pkg: &Package, extra: serde_json::Value) {
+    observe_one(rep, local, source, pkg, extra.clone());
+    // the same package after emptying / replacing its signature header through the public Header API
+    let mut cleared = pkg.clone();
+    cleared.metadata.signature.clear();
+    observe_one(rep, local, &format!("{source}+signature.clear()"), &cleared, extra.clone());
+    let mut fresh = pkg.clone();
+    fresh.metadata.signature = rpm::Header::<rpm::IndexSignatureTag>::new_empty();
+    observe_one(rep, local, &format!("{source}+signature=new_empty()"), &fresh, extra);
+}
+
+fn observe_one(rep: &Report, local: &mut BTreeMap<String, u64>, source: &str, pkg: &Package, extra: serde_json::Value) {
     match guard(|| judge_pkg(pkg)) {
         Ok(Ok((h, residue))) => {
             rep.nontrivial(h);
